@@ -643,7 +643,9 @@ func menu() []dev {
 		pp := pp
 		add("pkg.purpose", pp.String(), func(p, f *sbom.Node) { p.PrimaryPurpose = []sbom.Purpose{pp} })
 	}
-	dates := map[string]time.Time{"epoch": time.Unix(0, 0), "1700000000": time.Unix(1700000000, 0), "plus999ms": time.Unix(1700000000, 999_000_000), "year9999": time.Date(9999, 12, 31, 23, 59, 59, 0, time.UTC)}
+	dates := map[string]time.Time{"epoch": time.Unix(0, 0), "1700000000": time.Unix(1700000000, 0), "plus999ms": time.Unix(1700000000, 999_000_000), "year9999": time.Date(9999, 12, 31, 23, 59, 59, 0, time.UTC),
+		// corners of the range: Go's zero time (the smallest valid timestamp), one second later, one second before the epoch
+		"go-zero-time": time.Time{}, "year0001+1s": time.Time{}.Add(time.Second), "minus1s": time.Unix(-1, 0), "year1969": time.Date(1969, 7, 20, 20, 17, 40, 0, time.UTC)}
 	for dn, dv := range dates {
 		dn, dv := dn, dv
 		add("pkg.release_date", dn, func(p, f *sbom.Node) { p.ReleaseDate = timestamppb.New(dv) })
